@@ -96,7 +96,8 @@ theorem listItem_tokens (ordered : Bool) (markerChar : Char) (inner : List BRule
       (∀ innerToks, s3.tokens = s2.tokens ++ innerToks →
         s6.tokens = s.tokens ++ ([openT.setMap (some (startLine, s3.line))] ++ innerToks ++ [closeT])) ∧
       openT.nesting = 1 ∧ openT.level = s.level ∧ openT.type = "list_item_open" ∧
-      closeT.nesting = -1 ∧ closeT.level = s3.level - 1 ∧ closeT.type = "list_item_close" ∧ closeT.map = none ∧ s6.line = s3.line := by
+      closeT.nesting = -1 ∧ closeT.level = s3.level - 1 ∧ closeT.type = "list_item_close" ∧ closeT.map = none ∧ s6.line = s3.line
+      ∧ SufLines s.lines s2.lines := by
   unfold listItem at h
   cases hg : getL s startLine with
   | error e => rw [hg] at h; cases h
@@ -127,7 +128,7 @@ theorem listItem_tokens (ordered : Bool) (markerChar : Char) (inner : List BRule
           obtain ⟨h6, _, _⟩ := h
           refine ⟨listEnter s1 l startLine markerLen q (listIndentOf l markerLen q), s3, _, 
             pushedTok s3 "list_item_close" "li" (-1) none none "" (String.singleton markerChar) "", hs1t, hs1l, hs1m.1,
-            by simp [listEnter, hs1m.2], ?_, ?_, rfl, rfl, rfl, rfl, rfl, rfl, rfl, by rw [← h6]; rfl⟩
+            by simp [listEnter, hs1m.2], ?_, ?_, rfl, rfl, rfl, rfl, rfl, rfl, rfl, by rw [← h6]; rfl, ?_⟩
           · unfold listNested at hn
             split at hn
             · cases hn
@@ -141,6 +142,14 @@ theorem listItem_tokens (ordered : Bool) (markerChar : Char) (inner : List BRule
             simp only [List.append_assoc, List.cons_append, List.nil_append]
             rw [modify_append_len]
             rfl
+          · show SufLines s.lines (s1.lines.set startLine (l.retab (l.tShift + markerLen + q.2) q.1))
+            rw [hs1m.2]
+            have hl : s.lines[startLine]? = some l := by
+              unfold getL at hg
+              cases hq2 : s.lines[startLine]? with
+              | none => rw [hq2] at hg; cases hg
+              | some x => rw [hq2] at hg; cases hg; rfl
+            exact (SufLines.refl s.lines).set startLine l _ hl (List.suffix_refl _) rfl
 
 /-! ### the item loop -/
 
@@ -306,7 +315,7 @@ theorem listRun_tokens (T : BState → Nat → Nat → List Tok → Prop) (hT : 
 structure ListWrap (S : BState → List Tok → Prop) : Prop where
   hid : ∀ s seg seg', HidEq seg' seg → S s seg → S s seg'
   wrap : ∀ (s s2 : BState) (openT closeT : Tok) (m : Option (Nat × Nat)) (segs : List (List Tok)),
-      s2.level = s.level + 1 → openT.nesting = 1 → openT.level = s.level → closeT.nesting = -1 → closeT.level = s.level →
+      s2.level = s.level + 1 → SufLines s.lines s2.lines → openT.nesting = 1 → openT.level = s.level → closeT.nesting = -1 → closeT.level = s.level →
       (openT.type, closeT.type) ∈ [("list_item_open", "list_item_close"), ("bullet_list_open", "bullet_list_close"),
         ("ordered_list_open", "ordered_list_close")] →
       (∀ g ∈ segs, S s2 g) → S s ([openT.setMap m] ++ segs.flatten ++ [closeT])
@@ -385,12 +394,12 @@ theorem lChain_seg (S : BState → List Tok → Prop) (hw : QuoteWrap S) (hlw : 
         rcases key s line endLine hc with h' | ⟨s'', h', _, _, _, hrunq⟩
         · rw [h'] at h; cases h
         · rw [h'] at h; cases h
-          obtain ⟨s3, s4, next, openT, closeT, hl3, hlen3, hend3, hLv3, hrun, htok3, htok, ho1, ho2, ho3, hc1, hc2, hc3, _, _, _⟩ :=
+          obtain ⟨s3, s4, next, openT, closeT, hl3, hlen3, hend3, hLv3, hrun, htok3, htok, ho1, ho2, ho3, hc1, hc2, hc3, _, _, _, hsuf⟩ :=
             quote_tokens mn d _ s line s' hrunq
           obtain ⟨segs, hs4, hS⟩ := ih.2 s3 line next s4 hlen3 hend3 hLv3 hrun
           obtain ⟨s4', hrun', hfr4, _⟩ := (lChain_ok c ws mn d).2 s3 line next hlen3 hend3 hLv3
           rw [hrun] at hrun'; cases hrun'
-          exact ⟨_, htok _ hs4, hw.wrap s s3 s4 line openT closeT segs hl3 hfr4 ho1 ho2 ho3 hc1 hc2 hc3 hS⟩
+          exact ⟨_, htok _ hs4, hw.wrap s s3 s4 line openT closeT segs hl3 hfr4 ho1 ho2 ho3 hc1 hc2 hc3 hsuf hS⟩
       · intro s line endLine s' hc h
         rcases key s line endLine hc with h' | ⟨s'', h', _⟩
         · rw [h'] at h; cases h; rfl
@@ -405,11 +414,11 @@ theorem lChain_seg (S : BState → List Tok → Prop) (hw : QuoteWrap S) (hlw : 
             listItem ordered mc (lChain c ws mn d) mn endLine s startLine markerLen = .ok (s6, nt, pe) →
             ∃ seg, s6.tokens = s.tokens ++ seg ∧ S s seg := by
           intro s startLine markerLen s6 nt pe hlen hend hlt hline hlv hit
-          obtain ⟨s2, s3, openT, closeT, h2t, h2l, h2m, h2len, hnest, htok, ho1, ho2, ho3, hc1, hc2, hc3, _, _⟩ :=
+          obtain ⟨s2, s3, openT, closeT, h2t, h2l, h2m, h2len, hnest, htok, ho1, ho2, ho3, hc1, hc2, hc3, _, _, hsuf2⟩ :=
             listItem_tokens _ _ _ _ _ _ _ _ _ _ _ hit
           rcases hnest with ⟨h3t, h3l⟩ | hrun3
           · refine ⟨_, htok [] (by rw [h3t]; simp), ?_⟩
-            have := hlw.wrap s s2 openT closeT (some (startLine, s3.line)) [] h2l ho1 ho2 hc1 (by rw [hc2, h3l, h2l]; omega)
+            have := hlw.wrap s s2 openT closeT (some (startLine, s3.line)) [] h2l hsuf2 ho1 ho2 hc1 (by rw [hc2, h3l, h2l]; omega)
               (by rw [ho3, hc3]; simp) (by simp)
             simpa using this
           · have hlen2 : s2.lineMax + 1 ≤ s2.lines.length := by rw [h2m, h2len]; exact hlen
@@ -418,7 +427,7 @@ theorem lChain_seg (S : BState → List Tok → Prop) (hw : QuoteWrap S) (hlw : 
             obtain ⟨segs, hs3, hS⟩ := ih.2 s2 startLine endLine s3 hlen2 hend2 hlv2 hrun3
             obtain ⟨s3', hrun', hfr3, _⟩ := (lChain_ok c ws mn d).2 s2 startLine endLine hlen2 hend2 hlv2
             rw [hrun3] at hrun'; cases hrun'
-            exact ⟨_, htok _ hs3, hlw.wrap s s2 openT closeT (some (startLine, s3.line)) segs h2l ho1 ho2 hc1
+            exact ⟨_, htok _ hs3, hlw.wrap s s2 openT closeT (some (startLine, s3.line)) segs h2l hsuf2 ho1 ho2 hc1
               (by rw [hc2, hfr3.2.2.2, h2l]; omega) (by rw [ho3, hc3]; simp) hS⟩
         obtain ⟨s2, openT, closeT, toks, seg', hf2, hchain, _, htok, hhid, ho1, ho2, ho3, hc1, hc2, hc3, _⟩ :=
           listRun_tokens (fun s _ _ seg => S s seg) (fun s s' _ _ seg hf h => hw.closed s s' seg hf h) mn d c.code ordered mc mlen mv
@@ -426,7 +435,7 @@ theorem lChain_seg (S : BState → List Tok → Prop) (hw : QuoteWrap S) (hlw : 
         obtain ⟨segs, hsegs, hS⟩ := hchain.segs
         refine ⟨seg', htok, hlw.hid _ _ _ hhid ?_⟩
         rw [hsegs]
-        exact hlw.wrap s s2 openT closeT (some (line, s'.line)) segs hf2.2.2.2.2.1 ho1 ho2 hc1 hc2
+        exact hlw.wrap s s2 openT closeT (some (line, s'.line)) segs hf2.2.2.2.2.1 (by rw [hf2.1]; exact SufLines.refl _) ho1 ho2 hc1 hc2
           (by rw [ho3, hc3]; cases ordered <;> simp) hS
       · intro s line endLine s' hc h
         rcases key s line endLine hc with h' | ⟨s'', h', _⟩
@@ -526,7 +535,7 @@ theorem wellSegS_listWrap : ListWrap WellSegS := by
   · intro s seg seg' hh hS
     obtain ⟨h1, h2, h3⟩ := wellSeg_hid seg seg' s.level hh
     exact ⟨h1 hS.1, by rw [h2]; exact hS.2.1, by rw [h3]; exact hS.2.2⟩
-  · intro s s2 openT closeT m segs h2 ho1 ho2 hc1 hc2 _ hS
+  · intro s s2 openT closeT m segs h2 _ ho1 ho2 hc1 hc2 _ hS
     have hmid : WellSeg (s.level + 1) segs.flatten := by
       have := wellSegs_flatten s2.level segs (fun g hg => hS g hg)
       rw [h2] at this; exact this
